@@ -8,7 +8,9 @@ explores root -> AST -> (typing, all-truthy) -> one changed leaf outcome at a ti
 raise), i.e. every canonical outcome vector of every AST, with the expected log in the state;
 invariants state the property on the model (at most once, stop at the raise, everything
 evaluated without short-circuit forms, source order for regular expressions, rhs before
-targets, targets left to right, augmented-assignment order).
+targets, targets left to right, augmented-assignment order, all operands of a membership test
+over a display before its first comparison).  Membership tests over tuple/list/set displays use
+equality-aware logging objects (== logged as an unordered pair, equal = both falsy).
 Binding B1, three-way: every published AST x typing is rendered as a Python function; P = the
 generated module exec'd by CPython, C = the same module compiled by Cython from the snapshot
 (typed leaves are calls of a cfunc returning a C int).  Every published outcome vector is run
